@@ -4,4 +4,5 @@ pub mod enc;
 pub mod proj;
 pub mod rng;
 pub mod scen;
+pub mod store;
 pub mod world;
